@@ -40,6 +40,7 @@ static J case_json(const std::string& type, const VerCfg& vc, const Script& s) {
 }
 
 // ---------- C05 ----------
+static bool g_carried = true; // C05: also check carried-over instances (--carried 0 switches it off)
 static void oracle_c05(const std::string& type, const VerCfg& vc, const Script& s, Stats& st, Tape& tape, NiObject* obj, NiHeader& hdr) {
 	std::set<NiRef*> refs;
 	obj->GetChildRefs(refs);
@@ -110,6 +111,93 @@ static void oracle_c05(const std::string& type, const VerCfg& vc, const Script& 
 					 case_json(type, vc, s));
 	}
 	g_unit_outcomes.insert(vf::fnv(vf::strf("%zu/%zu/%zu/%zu", refs.size(), srefs.size(), wref, wstr)));
+}
+
+// C05, carried-over instances: an object read under version A whose members are then read again under version B
+// (what a model converted or assembled across versions holds: the member groups of both versions populated at
+// once, a state no single file produces).  Under both versions every NiRef / NiStringRef object that Put passes
+// through Sync must be reported by the enumerators.
+static void c05_write_side(const std::string& type, const char* a_name, const char* b_name, const char* under, NiObject* obj, NiHeader& hdr, Stats& st) {
+	std::set<NiRef*> refs;
+	obj->GetChildRefs(refs);
+	obj->GetPtrs(refs);
+	std::vector<NiStringRef*> srefs;
+	obj->GetStringRefs(srefs);
+	std::set<void*> refptrs(refs.begin(), refs.end()), strptrs(srefs.begin(), srefs.end());
+	const bool index_mode = hdr.GetVersion().File() >= V20_1_0_3;
+	std::vector<void*> seen_refs, seen_strs;
+	g_ctx.on_ref = [&](void* p, bool w) { if (w) seen_refs.push_back(p); };
+	g_ctx.on_strref = [&](void* p, bool w) { if (w && index_mode) seen_strs.push_back(p); };
+	std::ostringstream os(std::ios::binary);
+	NiOStream out(&os, &hdr);
+	try { obj->Put(out); } catch (std::exception&) { st.add("carried_put_exception"); }
+	g_ctx.on_ref = nullptr;
+	g_ctx.on_strref = nullptr;
+	{
+		std::set<NiRef*> refs2;
+		obj->GetChildRefs(refs2);
+		obj->GetPtrs(refs2);
+		std::vector<NiStringRef*> srefs2;
+		obj->GetStringRefs(srefs2);
+		refptrs.insert(refs2.begin(), refs2.end());
+		strptrs.insert(srefs2.begin(), srefs2.end());
+	}
+	st.add("carried_ref_writes_checked", (long long) seen_refs.size());
+	st.add("carried_strref_writes_checked", (long long) seen_strs.size());
+	auto report = [&](bool isref, size_t ord) {
+		std::string key = type + ":" + (isref ? "REF" : "STR") + ":carried-write";
+		st.violation(key,
+					 vf::strf("%s read under %s and then under %s: %s object #%zu written by Put under %s is not reported by the block's enumerators", type.c_str(), a_name,
+							  b_name, isref ? "NiRef" : "NiStringRef", ord, under),
+					 J::obj().set("type", type).set("carried_from", a_name).set("carried_to", b_name).set("put_under", under));
+	};
+	for (size_t i = 0; i < seen_refs.size(); i++) if (!refptrs.count(seen_refs[i])) { report(true, i); break; }
+	for (size_t i = 0; i < seen_strs.size(); i++) if (!strptrs.count(seen_strs[i])) { report(false, i); break; }
+	g_unit_outcomes.insert(vf::fnv(vf::strf("carried/%zu/%zu/%zu/%zu", refs.size(), srefs.size(), seen_refs.size(), seen_strs.size())));
+}
+
+static void c05_carried(const std::string& type, const VerCfg& va, Stats& st) {
+	static const Script none;
+	for (auto& vb : all_versions()) {
+		if (&vb == &va || std::string(vb.name) == va.name) continue;
+		if (vf::deadline_passed()) return;
+		vf::set_inflight(J::obj().set("type", type).set("carried_from", va.name).set("carried_to", vb.name).dump());
+		NiHeader ha, hb;
+		ha.SetVersion(va.ver());
+		seed_strings(ha);
+		hb.SetVersion(vb.ver());
+		seed_strings(hb);
+		std::unique_ptr<NiObject> obj;
+		try {
+			Tape ta;
+			ta.script = &none;
+			ta.wide = g_wide;
+			ta.tag_refs = true; // non-empty references: empty ones are dropped from arrays on write
+			obj = load_block(type, ha, ta);
+			if (!obj) return;
+			Tape tb;
+			tb.script = &none;
+			tb.wide = g_wide;
+			tb.tag_refs = true;
+			std::istream is(&tb);
+			is.exceptions(std::ios::badbit);
+			NiIStream sb(&is, &hb);
+			TapeScope scope(&tb);
+			obj->Get(sb);
+		} catch (TapeCap&) {
+			st.add("carried_capped");
+			continue;
+		} catch (TapeDiverged&) {
+			st.add("carried_rejected");
+			continue;
+		} catch (std::exception&) {
+			st.add("carried_rejected");
+			continue;
+		}
+		st.add("carried_instances");
+		c05_write_side(type, va.name, vb.name, vb.name, obj.get(), hb, st);
+		c05_write_side(type, va.name, vb.name, va.name, obj.get(), ha, st);
+	}
 }
 
 // ---------- C01 ----------
@@ -889,7 +977,10 @@ static std::vector<Point> run_one(const std::string& type, const VerCfg& vc, con
 	if (!s.empty() || tape.populated) g_unit_nontrivial.insert(vf::fnv(tape.bytes));
 	if (st.samples.empty() && s.size() == (size_t) g_bound)
 		st.sample(case_json(type, vc, s).set("tape_bytes", (long long) tape.bytes.size()).set("tape_head", vf::hexbytes(tape.bytes, 24)));
-	if (A.prop == "C05") oracle_c05(type, vc, s, st, tape, obj.get(), hdr);
+	if (A.prop == "C05") {
+		oracle_c05(type, vc, s, st, tape, obj.get(), hdr);
+		if (s.empty() && g_carried) c05_carried(type, vc, st);
+	}
 	else if (A.prop == "C01") {
 		oracle_c01_block(type, vc, s, st, tape, obj.get(), hdr);
 		obj.reset();
@@ -1013,6 +1104,7 @@ int main(int argc, char** argv) {
 	g_wide = A.geti("wide", 1) != 0;
 	g_file_level = (int) A.geti("filelevel", thorough ? 2 : 1);
 	g_file_dev = (int) A.geti("filedev", 1);
+	g_carried = A.geti("carried", 1) != 0;
 	// deviation bound inside the linked chains (one member varies): C01 1 / 2, C07 1 / 1, others 0 / 1 (measured cost:
 	// C02 runs every history on every chain file)
 	{
@@ -1058,6 +1150,13 @@ int main(int argc, char** argv) {
 		}
 		if (c.has("file")) {
 			run_rfile(c["file"].str(), top);
+			vf::finish(top);
+			return 0;
+		}
+		if (c.has("carried_from")) {
+			auto va = find_ver(c["carried_from"].str());
+			if (!va) vf::fatal("replay: unknown version " + c["carried_from"].str());
+			c05_carried(c["type"].str(), *va, top);
 			vf::finish(top);
 			return 0;
 		}
